@@ -105,6 +105,7 @@ func c16(r *mon.Run) {
 		"[a]", "[a, b]", "{x: a}", "{x: a, y: b}", "a.[b]", "a.{x: b}", "a[*].[b]", "a[*].{x: b}", "a || b", "a && b", "!a", "a == b", "a < b", "a | b", "a | [0]",
 		"keys(a)", "values(a)", "keys(@)", "values(@)", "sort(a)", "sort_by(a, &b)", "sort_by(a, &@)", "reverse(a)", "map(&b, a)", "map(&@, a)", "to_array(a)", "to_array(@)", "merge(a)", "merge(a, a)", "merge(@, @)",
 		"not_null(a, b)", "max(a)", "min(a)", "sum(a)", "avg(a)", "max_by(a, &b)", "min_by(a, &@)", "join(',', a)", "length(a)", "to_string(a)", "to_number(a)", "type(a)", "contains(a, b)", "[a[*], a[], a.*]",
+		"`9007199254740993`", "a || `9007199254740993`", "[`9007199254740993`, `-9007199254740993`, `12345678901234567890`]", "not_null(missing, `18446744073709551615`)", "`{\"id\": 9007199254740993, \"ids\": [9223372036854775807]}`", "{big: `1e21`, id: `9007199254740995`}",
 		"merge(@, {self: @})", "merge(a, {k: a})", "a | merge(@, {d: @})", "[merge(a, {h: [a]})]", "merge({x: a}, {y: a}).x", "merge(a, {b: a.b})",
 		"max(a[*].b)", "min(a[*].b)", "max(a[?b].b)", "min(a[?b > `5`].b)", "max(a[].b)", "min(a[1:].b)", "max(a[:0])", "sum(a[*].b)", "avg(a[?b].b)", "avg(a[*].b)", "max(*)", "min(a.*)", "max_by(a[?b], &b)", "sort(a[*].b)", "join('', a[*].b)",
 	}
